@@ -48,6 +48,9 @@ P = {
  "C16": ("Theorems: C16_model_deterministic / C16_results_deterministic (the modelled search is a function of the model), permutation-invariance of every hash-ordered collection consumed on the solving path (registry queries sorted after collection, all-different validation under an adversary that reshuffles at every step, distinct counts, Hall removals commute, keyed access), C16_no_clock_in_result/_optimum/_enumeration (the clock only feeds limit tests); counterexamples for two public helpers that ARE order dependent (SparseSetGAC, create_precision_propagators). Tie: each generated call is run twice in fresh threads and in several separate OS processes (different SipHash keys); transcripts must be byte-identical.",
          "Lean 4 proof (permutation invariance of order-blind consumers) plus observed byte-identical transcripts across threads and OS processes",
          "Cross-process equality is observed on generated models, not proved; the site audit (every HashMap/HashSet iteration in src/) is by hand and listed in Lemmas/Determ.lean."),
+ "C17": ("Theorems about an explicit safety model (Model/Safety.lean: every index, slice bound, emptiness assertion, unsigned underflow and i32 arithmetic site of the modelled functions is a checked `site`): C17_ss_indices_in_bounds / C17_ss_arith_safe / C17_ss_history_safe (SparseSet: every step after any valid history is panic-free, for all universes below 2^30), C17_views_safe / C17_views_set_safe, C17_lin_safe (IntLinEq/Le/Ne neither panic nor saturate under an explicit magnitude bound), C17_validation_table (+ _partial, guard isFinding; full statement false: eleven kernel-checked counterexamples = the recorded findings). Tie: direct calls with extreme values compared with the model's site predicates (panic iff a site fails); oracle: generated API call sequences (boundary arguments, documented invalid inputs) under catch_unwind, hangs and aborts observed in isolated child processes.",
+         "Lean 4 proof (site-safety invariants over histories) with differential correspondence, plus panic-capturing oracle over generated API call sequences",
+         "Proof covers SparseSet, views, integer linear propagators and the validation table; for the rest of the API surface the evidence is the oracle run (stated in the evidence assumptions)."),
  "C18": ("Theorems for all 9x9 grids: naked_single_sound, hidden_single_sound (row/col/box, via the pigeonhole lemma unit_contains_every_digit), posted_sound (every posted cell==digit holds in every valid completion), naked_pairs_no_effect, events_closed_form, verify_solution_iff_valid, C18_sound_complete_partial (guard: clues in 0..9): the valid completions are exactly the solutions of domains + 27 all-different + posted singles, C18_posted_redundant, C18_end_to_end (sound, complete and agreeing with the general solver, parametric in a general solver satisfying C01-C03); counterexamples for the two findings. Tie: candidate tables, technique passes, the complete posted-event trace (hook H8) and results compared exactly; brute-force referee search as oracle.",
          "Lean 4 proof (soundness of every elimination rule for all grids) with differential correspondence of the event trace",
          "The general solver's answer is an input of the model; its correctness is C01-C03's subject."),
